@@ -98,10 +98,10 @@ Qed.
 
 (* ------------------------------------------------------------------ paths_from_path *)
 
-Lemma ext_pushes_In : forall exts o name x, In x (ext_pushes exts o name) <-> x = o /\ has_ext exts name = true.
+Lemma ext_pushes_In : forall exts o name x, In x (ext_pushes true exts o name) <-> x = o /\ has_ext exts name = true.
 Proof.
   intros exts o name x. unfold ext_pushes, has_ext. rewrite in_flat_map, existsb_exists. split.
-  - intros [e [He Hin]]. destruct (ends_with e (map to_lower name)) eqn:E; [|easy].
+  - intros [e [He Hin]]. destruct (ends_with (map to_lower e) (map to_lower name)) eqn:E; [|easy].
     destruct Hin as [<-|[]]. split; [reflexivity | now exists e].
   - intros [-> [e [He E]]]. exists e. split; [exact He|]. rewrite E. now left.
 Qed.
@@ -124,7 +124,7 @@ Proof.
     rewrite (entry_eta e) in He. now rewrite Ed in He.
   - intros [p [-> [Hin [Hp Hx]]]].
     destruct (nub_complete (fun x : out => x) out_eqb out_eqb_eq
-                (flat_map (fun e => if true && e_dir e then [] else ext_pushes exts (norm_pfx pf, e_path e) (last (e_path e) [])) (walk t a))
+                (flat_map (fun e => if true && e_dir e then [] else ext_pushes true exts (norm_pfx pf, e_path e) (last (e_path e) [])) (walk t a))
                 (norm_pfx pf, p)) as [y [Hy ->]]; [|exact Hy].
     apply in_flat_map. exists {| e_path := p; e_dir := false |}. split.
     + unfold walk. apply filter_In. now split.
@@ -506,4 +506,16 @@ Proof.
   exists [ {| e_path := [n_dsql]; e_dir := true |}; {| e_path := [n_asql]; e_dir := false |} ], [ext_sql],
          [ {| a_pfx := Dot; a_path := [] |} ].
   split; [|vm_compute; reflexivity]. intros a [<-|[]]. cbn. discriminate.
+Qed.
+
+(** Before the fourth repair: an extension configured in upper case matched no file at all. *)
+Definition n_aSQL : str := [97;46;83;81;76].
+Definition ext_SQL : str := [46;83;81;76].
+Lemma legacy_refuted_ext_case :
+  exists t exts args, has_ext exts n_aSQL = true /\ ends_with (hd [] exts) n_aSQL = true /\
+                      linted_legacy t exts [] args = Some [] /\
+                      linted t exts [] args = Some [(Rel, [n_aSQL])].
+Proof.
+  exists [ {| e_path := [n_aSQL]; e_dir := false |} ], [ext_SQL], [ {| a_pfx := Dot; a_path := [] |} ].
+  vm_compute. repeat split; reflexivity.
 Qed.
